@@ -378,6 +378,7 @@ func init() {
 				{Name: "tick+1", Kind: "tick", D: 1},
 				{Name: fmt.Sprintf("tick+%d", eff), Kind: "tick", D: eff},
 			}}
+			sys.events = append(sys.events, keyEvent{Name: "reload(unchanged configuration)", Kind: "reload"})
 			if pc.name == "2s" || pc.name == "unset" {
 				sys.events = append(sys.events, keyEvent{Name: "GET(origin:panic)", Kind: "get", Ans: "panic"})
 			}
